@@ -36,6 +36,36 @@
 /* Private definitions                                                        */
 /*============================================================================*/
 
+/**
+ * Reduces a scalar modulo the group order keeping its sign. The precomputed
+ * tables cover the bits of the group order only.
+ *
+ * @param[out] _k			- the reduced scalar.
+ * @param[in] k				- the scalar.
+ */
+static void ed_mul_fix_red(bn_t _k, const bn_t k) {
+	bn_t n;
+
+	bn_null(n);
+
+	RLC_TRY {
+		bn_new(n);
+
+		ed_curve_get_ord(n);
+		bn_abs(_k, k);
+		bn_mod(_k, _k, n);
+		if (bn_sign(k) == RLC_NEG && !bn_is_zero(_k)) {
+			bn_neg(_k, _k);
+		}
+	}
+	RLC_CATCH_ANY {
+		RLC_THROW(ERR_CAUGHT);
+	}
+	RLC_FINALLY {
+		bn_free(n);
+	}
+}
+
 #if ED_FIX == LWNAF || !defined(STRIP)
 
 /**
@@ -185,21 +215,38 @@ void ed_mul_pre_basic(ed_t * t, const ed_t p) {
 }
 
 void ed_mul_fix_basic(ed_t r, const ed_t *t, const bn_t k) {
+	bn_t _k;
+
 	if (bn_is_zero(k)) {
 		ed_set_infty(r);
 		return;
 	}
 
-	ed_set_infty(r);
+	bn_null(_k);
 
-	for (int i = 0; i < bn_bits(k); i++) {
-		if (bn_get_bit(k, i)) {
-			ed_add(r, r, t[i]);
+	RLC_TRY {
+		bn_new(_k);
+
+		/* The table has one entry per bit of the order. */
+		ed_mul_fix_red(_k, k);
+
+		ed_set_infty(r);
+
+		for (int i = 0; i < bn_bits(_k); i++) {
+			if (bn_get_bit(_k, i)) {
+				ed_add(r, r, t[i]);
+			}
+		}
+		ed_norm(r, r);
+		if (bn_sign(_k) == RLC_NEG) {
+			ed_neg(r, r);
 		}
 	}
-	ed_norm(r, r);
-	if (bn_sign(k) == RLC_NEG) {
-		ed_neg(r, r);
+	RLC_CATCH_ANY {
+		RLC_THROW(ERR_CAUGHT);
+	}
+	RLC_FINALLY {
+		bn_free(_k);
 	}
 }
 
@@ -247,7 +294,23 @@ void ed_mul_pre_combs(ed_t * t, const ed_t p) {
 }
 
 void ed_mul_fix_combs(ed_t r, const ed_t * t, const bn_t k) {
-	ed_mul_combs_plain(r, t, k);
+	bn_t _k;
+
+	bn_null(_k);
+
+	RLC_TRY {
+		bn_new(_k);
+
+		/* The comb covers the bits of the order only. */
+		ed_mul_fix_red(_k, k);
+		ed_mul_combs_plain(r, t, _k);
+	}
+	RLC_CATCH_ANY {
+		RLC_THROW(ERR_CAUGHT);
+	}
+	RLC_FINALLY {
+		bn_free(_k);
+	}
 }
 #endif
 
@@ -303,12 +366,17 @@ void ed_mul_pre_combd(ed_t * t, const ed_t p) {
 
 void ed_mul_fix_combd(ed_t r, const ed_t * t, const bn_t k) {
 	int i, j, d, e, w0, w1, n0, p0, p1;
-	bn_t n;
+	bn_t n, _k;
 
 	bn_null(n);
+	bn_null(_k);
 
 	RLC_TRY {
 		bn_new(n);
+		bn_new(_k);
+
+		/* The combs cover the bits of the order only. */
+		ed_mul_fix_red(_k, k);
 
 		ed_curve_get_ord(n);
 		d = bn_bits(n);
@@ -316,7 +384,7 @@ void ed_mul_fix_combd(ed_t r, const ed_t * t, const bn_t k) {
 		e = (d % 2 == 0 ? (d / 2) : (d / 2) + 1);
 
 		ed_set_infty(r);
-		n0 = bn_bits(k);
+		n0 = bn_bits(_k);
 
 		p1 = (e - 1) + (RLC_DEPTH - 1) * d;
 		for (i = e - 1; i >= 0; i--) {
@@ -326,7 +394,7 @@ void ed_mul_fix_combd(ed_t r, const ed_t * t, const bn_t k) {
 			p0 = p1;
 			for (j = RLC_DEPTH - 1; j >= 0; j--, p0 -= d) {
 				w0 = w0 << 1;
-				if (p0 < n0 && bn_get_bit(k, p0)) {
+				if (p0 < n0 && bn_get_bit(_k, p0)) {
 					w0 = w0 | 1;
 				}
 			}
@@ -335,7 +403,7 @@ void ed_mul_fix_combd(ed_t r, const ed_t * t, const bn_t k) {
 			p0 = p1-- + e;
 			for (j = RLC_DEPTH - 1; j >= 0; j--, p0 -= d) {
 				w1 = w1 << 1;
-				if (i + e < d && p0 < n0 && bn_get_bit(k, p0)) {
+				if (i + e < d && p0 < n0 && bn_get_bit(_k, p0)) {
 					w1 = w1 | 1;
 				}
 			}
@@ -344,7 +412,7 @@ void ed_mul_fix_combd(ed_t r, const ed_t * t, const bn_t k) {
 			ed_add(r, r, t[(1 << RLC_DEPTH) + w1]);
 		}
 		ed_norm(r, r);
-		if (bn_sign(k) == RLC_NEG) {
+		if (bn_sign(_k) == RLC_NEG) {
 			ed_neg(r, r);
 		}
 	}
@@ -353,6 +421,7 @@ void ed_mul_fix_combd(ed_t r, const ed_t * t, const bn_t k) {
 	}
 	RLC_FINALLY {
 		bn_free(n);
+		bn_free(_k);
 	}
 }
 
@@ -365,7 +434,23 @@ void ed_mul_pre_lwnaf(ed_t * t, const ed_t p) {
 }
 
 void ed_mul_fix_lwnaf(ed_t r, const ed_t * t, const bn_t k) {
-	ed_mul_fix_plain(r, t, k);
+	bn_t _k;
+
+	bn_null(_k);
+
+	RLC_TRY {
+		bn_new(_k);
+
+		/* The recoding buffer holds the digits of a scalar below the order. */
+		ed_mul_fix_red(_k, k);
+		ed_mul_fix_plain(r, t, _k);
+	}
+	RLC_CATCH_ANY {
+		RLC_THROW(ERR_CAUGHT);
+	}
+	RLC_FINALLY {
+		bn_free(_k);
+	}
 }
 
 #endif
